@@ -6,7 +6,7 @@ KIND = {'ACT_AI': 'assign', 'ACT_IF': 'if', 'ACT_WHL': 'while', 'ACT_FOR': 'for'
         'ACT_DEL': 'delete', 'ACT_REL': 'relate', 'ACT_RU': 'relate', 'ACT_UNR': 'unrelate', 'ACT_URU': 'unrelate',
         'ACT_FIO': 'select_from', 'ACT_FIW': 'select_from', 'ACT_SEL': 'select_related', 'ACT_RET': 'return', 'ACT_BRK': 'break',
         'ACT_CON': 'continue', 'ACT_CTL': 'control', 'ACT_FNC': 'call', 'ACT_BRG': 'call', 'ACT_TFM': 'call', 'ACT_EL': 'elif',
-        'ACT_E': 'else', 'E_GPR': 'gen_pre'}
+        'ACT_E': 'else', 'E_GPR': 'gen_pre', 'ACT_IOP': 'call'}
 
 
 def subtypes(inst, rel):
@@ -76,6 +76,9 @@ def collect(m, inst):
         kind = KIND.get(st[0], st[0]) if st else '?'
         if kind == 'E_ESS':
             kind = event_kind(m, s)
+        if kind == 'ACT_SGN':
+            # a signal across a port: sent to a target (send P::s(..) to x) or not
+            kind = 'send_event' if one(s).ACT_SGN[603].V_VAL[630]() else 'call'
         stmts.append({'k': kind, 'tag': tag, 'links': links, 'line': s.LineNumber, 'sc': s.StartPosition, 'ec': s.EndPosition,
                       'prev': pos(prev) if prev is not None else [], 'first': first_of_block.get(blk.Block_ID, []) if blk else []})
     vals = []
